@@ -14,9 +14,23 @@ import (
 type Conn struct {
 	net.Conn
 	remoteCall string
+
+	// The reader used for the login lines. It may already hold bytes that
+	// arrived in the same segment as the last login line, so all reads of
+	// the logged in connection must go through it.
+	r *bufio.Reader
 }
 
 func (conn Conn) RemoteCall() string { return conn.remoteCall }
+
+// Read reads from the connection, starting with any data that was received
+// (and buffered) together with the login lines.
+func (conn Conn) Read(p []byte) (int, error) {
+	if conn.r == nil {
+		return conn.Conn.Read(p)
+	}
+	return conn.r.Read(p)
+}
 
 type listener struct{ net.Listener }
 
@@ -54,5 +68,5 @@ func (ln listener) Accept() (net.Conn, error) {
 	fmt.Fprintf(conn, "Password :\r")
 	_, err = reader.ReadString('\r') //TODO
 
-	return &Conn{conn, remoteCall}, err
+	return &Conn{conn, remoteCall, reader}, err
 }
